@@ -306,6 +306,11 @@ impl VirtualSign<'_> {
 
     /// Handles `DataChunksSent` messages.
     fn data_chunks_sent<'a>(&mut self, chunks: ChunkCount) -> Option<Message<'a>> {
+        // The message is unaddressed: if we aren't receiving data, it's meant for another sign on the bus.
+        if !matches!(self.state, State::ConfigInProgress | State::PixelsInProgress) {
+            return None;
+        }
+
         if ChunkCount(self.data_chunks) == chunks {
             match self.state {
                 State::ConfigInProgress => self.state = State::ConfigReceived,
